@@ -150,6 +150,10 @@ impl InlineCache {
                 i += 1;
             } else {
                 // Opportunistically clean up stale weak shapes.
+                #[cfg(boa_verif)]
+                crate::verif::ic_event(|| {
+                    format!("dead {:x} {i}", std::ptr::from_ref(self) as usize)
+                });
                 entries.swap_remove(i);
             }
         }
